@@ -1,6 +1,6 @@
 (* C13 — property theorems.  Statements only; proofs are short applications of the lemmas in
    AuthProofs.v (decision logic, reply signing), TbsProofs.v (MAC input determines the covered
-   part) and ForgeProofs.v (modified messages, panic classes).  [K], [mac] (the MAC function),
+   part) and ForgeProofs.v (modified messages, absence of panics).  [K], [mac] (the MAC function),
    [Zone] and [apply_update] (what an authorised update does: C12's subject) are universally
    quantified; no injectivity of [mac] is assumed anywhere — where it matters the conclusion offers
    an explicit MAC collision as the only alternative. *)
@@ -15,7 +15,8 @@ Open Scope N_scope.
 (* An UPDATE is authorised iff updates are enabled and the request decodes, ends with a TSIG
    record naming a configured key (first signer of that name, ASCII case ignored), carries that
    key's algorithm, a MAC of full length equal to the key's MAC over the reconstructed input, and
-   time - fudge <= now < time + fudge (no underflow). *)
+   time - fudge <= now < time + fudge, where the start saturates at 0 (truncated subtraction on N =
+   u64 saturating_sub, fix 1bb1e89). *)
 Theorem C13_update_authorized_iff :
   forall K (mac : alg -> K -> bytes -> bytes) c deep m now,
   (exists cx, authorize_update mac c (parse_request deep m) now = AAllow cx) <->
@@ -56,8 +57,7 @@ Print Assumptions C13_update_effect_implies_valid.
 
 (* Every request that is not a valid, timely TSIG request (unsigned, unknown key, wrong algorithm,
    MAC wrong or truncated, stale) leaves the zone as it was, returns no zone data, and is answered
-   REFUSED (5) or NOTAUTH (9) — unless it is dropped undecoded or falls in the panic class of
-   C13_no_panic_guarded. *)
+   REFUSED (5) or NOTAUTH (9) — unless it is dropped undecoded (no handler runs). *)
 Theorem C13_rejected_changes_nothing :
   forall K (mac : alg -> K -> bytes -> bytes) Zone (apply_update : bytes -> Zone -> Zone * N)
          c deep m now z z' rc cx d,
@@ -156,7 +156,7 @@ Print Assumptions C13_modified_request_rejected.
    client's verifier: [rv] is the reply as framed by the client, whose TSIG record carries the fields
    the server attached (tsig_agrees: owner name up to case — wire encoding/decoding of the record is
    C02/C03's subject), the client holds the same key, and its request time lies in the reply's
-   window now - fudge <= T < now + fudge.  [mac_len]: HMAC output has the algorithm's length. *)
+   window now - fudge <= T < now + fudge (start saturating at 0).  [mac_len]: HMAC output has the algorithm's length. *)
 Theorem C13_reply_roundtrip :
   forall K (mac : alg -> K -> bytes -> bytes),
   (forall a k d, length (mac a k d) = out_len a) ->
@@ -166,7 +166,6 @@ Theorem C13_reply_roundtrip :
   sign_ctx mac (CSigned s reqmac err) rid now (unsigned_of rv) = Some t ->
   tsig_agrees t (v_tsig rv) ->
   lower_name (s_name cs) = lower_name (s_name s) -> s_alg cs = s_alg s -> s_key cs = s_key s ->
-  s_fudge s <= now ->
   now - s_fudge s <= reqtime < now + s_fudge s ->
   client_verify mac true (mkVerifier cs reqmac 0 reqtime) r =
     CRAccept (mkVerifier cs (t_mac t) now reqtime).
@@ -200,41 +199,33 @@ Proof. intros K mac. apply (modified_later_reply K mac). Qed.
 Print Assumptions C13_modified_later_reply_rejected.
 
 (* ------------------------------------------------------------------ *)
-(* 5. panics (known findings)                                          *)
+(* 5. no panics                                                        *)
 (* ------------------------------------------------------------------ *)
 
-(* "handling a request never panics" is false for the faithful model: witness below
-   (C13_no_panic_witness).  It holds outside one class: the request carries a full-length MAC that
-   verifies under the selected key and its time is smaller than its fudge (u64 `time - fudge`). *)
-Theorem C13_no_panic_guarded :
+(* With the repairs 1bb1e89 (window start saturates) and 4e36f86 (counts added in usize; a
+   misplaced TSIG record is an error) no byte string, configuration, clock or MAC function makes
+   the request path panic: OPanic is never the outcome. *)
+Theorem C13_no_panic :
   forall K (mac : alg -> K -> bytes -> bytes) Zone (apply_update : bytes -> Zone -> Zone * N) c deep m now z,
-  (do_update mac Zone apply_update c deep m now z = OPanic ->
-     allow_update c = true /\ deep = true /\ underflow_request mac (signers c) m) /\
-  (do_axfr mac Zone c deep m now z = OPanic ->
-     axfr c = AllowSigned /\ deep = true /\ underflow_request mac (signers c) m).
+  do_update mac Zone apply_update c deep m now z <> OPanic /\
+  do_axfr mac Zone c deep m now z <> OPanic.
 Proof.
   intros K mac Zone ap c deep m now z. split; intros H.
   - pose proof (do_update_cases K mac Zone ap c deep m now z) as C. rewrite H in C.
-    destruct C as (_ & A). now apply (authorize_update_panic K mac) in A.
+    destruct C as (_ & A). exact (authorize_update_no_panic K mac _ _ _ A).
   - pose proof (do_axfr_cases K mac Zone c deep m now z) as C. rewrite H in C.
-    destruct C as (_ & A). now apply (authorize_axfr_panic K mac) in A.
+    destruct C as (_ & A). exact (authorize_axfr_no_panic K mac _ _ _ A).
 Qed.
-Print Assumptions C13_no_panic_guarded.
+Print Assumptions C13_no_panic.
 
-(* verify_message_byte / TSigVerifier::verify panic exactly on: the framing panics of
-   signed_bitmessage_to_buf (ANCOUNT + NSCOUNT > 65535; a TSIG record as last but one additional
-   record — debug builds), and the underflow class above. *)
-Theorem C13_client_no_panic_guarded :
-  forall K (mac : alg -> K -> bytes -> bytes) deep (vf : verifier K) r,
-  client_verify mac deep vf r = CRPanic <->
-  deep = true /\
-  (frame_panics r \/
-   exists v, frame r = FSigned v /\
-     verify_view mac (vf_signer vf) v (Some (vf_prev vf)) (vf_remote vf =? 0) = VUnderflow).
+(* verify_message_byte and TSigVerifier::verify never panic, for any bytes and any verifier state. *)
+Theorem C13_client_no_panic :
+  forall K (mac : alg -> K -> bytes -> bytes) deep (s : signer K) (vf : verifier K) r prev first,
+  verify mac deep s r prev first <> VPanic /\ client_verify mac deep vf r <> CRPanic.
 Proof.
-  intros. rewrite (client_verify_panics K mac). now rewrite frame_panic_class.
+  intros. split; [apply (verify_no_panic K mac)|apply (client_verify_no_panic K mac)].
 Qed.
-Print Assumptions C13_client_no_panic_guarded.
+Print Assumptions C13_client_no_panic.
 
 (* ------------------------------------------------------------------ *)
 (* witnesses and non-vacuity (bytes taken from runs of the real implementation) *)
@@ -246,7 +237,9 @@ Definition lbl_key : list bytes := [unhex "7570646174652d6b6579"%string; unhex "
 Definition s0 : signer unit := mkSigner lbl_key Sha256 tt 300.
 Definition cfg0 : config unit := mkConfig true AllowSigned [s0].
 
-(* bin/vp check C13, seed=1 index=334: pristine signed UPDATE, T=1700000248, and the server's reply *)
+(* taken from a run of the harness against the real implementation: a pristine signed UPDATE
+   (key update-key.example.com., HMAC-SHA256, T=1700000248), the MAC input the server reconstructed,
+   the two real HMAC values, and the server's signed reply (server clock 1700000244) *)
 Definition m_ok : bytes := unhex "61f828000001000000010001076578616d706c6503636f6d0000060001056e65773130c00c000100010000007800040a01cf450a7570646174652d6b6579076578616d706c6503636f6d0000fa00ff00000000003d0b686d61632d7368613235360000006553f1f8012c002090ccd857f5e642c633800ab9d3baea2bb0423198ff5f8b9fba1a61493317573661f800000000"%string.
 Definition tbs_ok : bytes := unhex "61f828000001000000010000076578616d706c6503636f6d0000060001056e65773130c00c000100010000007800040a01cf450a7570646174652d6b6579076578616d706c6503636f6d0000ff000000000b686d61632d7368613235360000006553f1f8012c00000000"%string.
 Definition mac_req : bytes := unhex "90ccd857f5e642c633800ab9d3baea2bb0423198ff5f8b9fba1a614933175736"%string.
@@ -327,27 +320,47 @@ Example C13_reply_example :
    | _ => False end).
 Proof. split; [vm_compute; reflexivity|]. vm_compute. repeat split; reflexivity. Qed.
 
-(* WITNESS (refutes "never panics"): seed=1 index=10 — key update-key.example.com., time 292 <
-   fudge 300, correct HMAC-SHA256: the model reaches the `time - fudge` underflow; the real server
-   panics on the same bytes ("attempt to subtract with overflow", tsig.rs:325) *)
+(* The former panic witnesses (known findings C13-F7-time-underflow, C13-client-count-overflow,
+   C13-client-double-tsig, all repaired), as the repaired code treats them: *)
+
+(* key update-key.example.com., time 292 < fudge 300, correct HMAC-SHA256, server clock 292: the
+   window is [0, 592) and the request is served *)
 Definition m_uf : bytes := unhex "ea0328000001000000020001076578616d706c6503636f6d0000060001046e657737c00c000100010000007800040a01ef29056e65773732c00c000100010000007800040a018ef70a7570646174652d6b6579076578616d706c6503636f6d0000fa00ff00000000003d0b686d61632d73686132353600000000000124012c00203d4dc04eb6f86e369bd4c2cc24a485a23e122a1fdabc02017dd9c0e96aa5e8cbea0300000000"%string.
 Definition mac2 (_ : alg) (_ : unit) (_ : bytes) : bytes :=
   unhex "3d4dc04eb6f86e369bd4c2cc24a485a23e122a1fdabc02017dd9c0e96aa5e8cb"%string.
 
-Example C13_no_panic_witness :
-  do_update mac2 nat (fun _ z => (S z, 0)) cfg0 true m_uf 292 O = OPanic /\
-  do_axfr mac2 nat cfg0 true m_uf 292 O = OPanic.
+Example C13_small_time_example :
+  do_update mac2 nat (fun _ z => (S z, 0)) cfg0 true m_uf 292 O = ODone 1%nat 0 (CSigned s0 (mac2 Sha256 tt []) 0) false /\
+  do_update mac2 nat (fun _ z => (S z, 0)) cfg0 true m_uf 592 O = ODone O 9 (CSigned s0 (mac2 Sha256 tt []) 18) false.
 Proof. split; vm_compute; reflexivity. Qed.
 
-(* WITNESSES for the framing panics: seed=1 index=65 (ANCOUNT=0xffff, NSCOUNT=2), and the real
-   reply with its TSIG record appended a second time (ARCOUNT=2) *)
+(* a count-edited request (ANCOUNT=0xffff, NSCOUNT=2), and the real reply with its TSIG record
+   appended a second time (ARCOUNT=2): decoding errors *)
 Definition m_cnt : bytes := unhex "cf7328000001ffff00020001076578616d706c6503636f6d0000060001046e657737c00c000100010000007800040a01e8ae056e65773533c00c000100010000007800040a01bd620a7570646174652d6b6579076578616d706c6503636f6d0000fa00ff00000000003d0b686d61632d7368613235360000006553f19e012c00209e6616161962ec10fcc1137ecf38b9679eb924d0f3481b296c3b87193fd87ce1cf7300000000"%string.
 Definition reply_twice : bytes :=
   firstn 11 reply_ok ++ [2] ++ skipn 12 reply_ok ++ skipn 29 reply_ok.
 
-Example C13_client_panic_witness :
-  frame m_cnt = FPanic /\ frame reply_twice = FPanic /\
-  client_verify mac1 true (mkVerifier s0 mac_req 0 1700000248) reply_twice = CRPanic.
+Example C13_misframed_example :
+  frame m_cnt = FErr /\ frame reply_twice = FErr /\
+  client_verify mac1 true (mkVerifier s0 mac_req 0 1700000248) reply_twice = CRErr.
 Proof. repeat split; vm_compute; reflexivity. Qed.
 
 End Examples.
+
+(* ------------------------------------------------------------------ *)
+(* the refuted reading of the property, with its guarded form above    *)
+(* ------------------------------------------------------------------ *)
+
+(* "the MAC verifies over the exact request bytes" — refuted: two different byte strings are both
+   valid requests under the same MAC (guarded form: C13_modified_request_rejected — they agree on
+   every covered part; replayed on the real code: known finding C13-F7-uncovered-bits) *)
+Theorem C13_exact_bytes_refuted :
+  exists (mac : alg -> unit -> bytes -> bytes) ss m m' now,
+    m <> m' /\ valid_tsig_request mac ss m now /\ valid_tsig_request mac ss m' now.
+Proof.
+  exists mac1, [s0], m_z, m_ok, 1700000244.
+  destruct C13_uncovered_z_bit_example as (Hne & _ & _ & Hz & _).
+  destruct C13_valid_request_example as (Hok & _).
+  auto.
+Qed.
+Print Assumptions C13_exact_bytes_refuted.
